@@ -1,5 +1,6 @@
 import MpfVerif.Lemmas.Framing
 import MpfVerif.Lemmas.Framing2
+import MpfVerif.Lemmas.Framing3
 /-!
 # C14 — Serial links: framing, integrity and command flow control
 
@@ -592,5 +593,220 @@ theorem gate_fifo (ops : List GOp) :
 /-- non-vacuity (and the known finding D7 seen from the callers' side): three callers, one response releases all of them -/
 example : (gRun {} [.call 1, .call 2, .forget 9, .call 3, .resp]).written = [(true, 1), (false, 9), (true, 2), (true, 3)] ∧
     (gRun {} [.call 1, .call 2, .forget 9, .call 3, .resp]).fin = [1, 2, 3] := by decide
+
+/-! ## third part (`Model/Framing3.lean`): OPP platform level -/
+open MpfVerif.Framing3
+
+/-- OPP initial reads (`read_gen2_inp_resp_initial` / `read_matrix_inp_resp_initial` behind `_parse_msg`): after ANY
+list of delivered frames - good, wrong CRC, unknown card, other card - the `old_state` of card `(matrix?, address)` is
+what the last frame with a correct CRC for that card said, and what it was before if there was none.  `lastGood` is the
+specification: it looks at nothing but the frames' own content.  Hence a frame with a wrong checksum changes no card. -/
+theorem opp_initial_state_is_last_report (fs : List Bytes) (c : ChainSt) (m : Bool) (a : Nat) :
+    oldOf m a (fs.foldl initFrame c).cards = (oldOf m a c.cards).map (fun o => lastGood m a o fs) :=
+  initFrames_spec fs c m a
+
+/-- OPP steady state (`read_gen2_inp_resp` / `read_matrix_inp_resp`), for every card of every chain: if MPF's switch
+states mirror the cards (`Mirror`: every input's state is the complement of its `old_state` bit - inputs are active
+low), then after ANY list of delivered frames they still do, and `old_state` is the payload of the last frame with a
+correct CRC for that card.  Together: MPF's switch states equal the last report from each board. -/
+theorem opp_steady_state_is_last_report (fs : List Bytes) (c : ChainSt) (m : Bool) (a : Nat) (h : Mirror c.cards) :
+    oldOf m a (steadyFrames c fs).1.cards = (oldOf m a c.cards).map (fun o => lastGood m a o fs) ∧
+    Mirror (steadyFrames c fs).1.cards :=
+  steadyFrames_spec fs c m a h
+
+/-- `get_hw_switch_states` after the initial reads establishes `Mirror` (and leaves every `old_state` alone) whenever it
+returns at all, whatever frames the initial reads delivered. -/
+theorem opp_hw_states_mirror_initial_reads (fs : List Bytes) (c : ChainSt) (cs' : List OCard) (hl : LenOk c.cards)
+    (h : hwCards (fs.foldl initFrame c).cards = some cs') :
+    Mirror cs' ∧ ∀ m a, oldOf m a cs' = (oldOf m a c.cards).map (fun o => lastGood m a o fs) := by
+  obtain ⟨h1, h2⟩ := hwCards_spec _ cs' h (initFrames_lenOk fs c hl)
+  exact ⟨h1, fun m a => by rw [h2, initFrames_spec]⟩
+
+/-- a frame with a wrong checksum changes no card and produces no switch event, in either phase -/
+theorem opp_platform_bad_crc_changes_nothing (c : ChainSt) (f : Bytes) (h : decode f = .badCrc) :
+    (initFrame c f).cards = c.cards ∧ (steadyFrame c f).1.cards = c.cards ∧ (steadyFrame c f).2 = [] ∧
+    (steadyFrame c f).1.badCrc = c.badCrc + 1 := by
+  simp [initFrame, steadyFrame, h]
+
+/-- the steady-state reader (`_parse_msg` + handlers) on a chain: two ways of splitting the same bytes into reads give
+the same cards (old_state and MPF's switch states), the same switch events and the same bad-CRC count -/
+theorem opp_platform_chunking_irrelevant (c : ChainSt) (hq : Quiet c.ps) (c1 c2 : List Bytes)
+    (h : c1.flatten = c2.flatten) :
+    (steadyReads c c1).1.cards = (steadyReads c c2).1.cards ∧ (steadyReads c c1).2 = (steadyReads c c2).2 ∧
+    (steadyReads c c1).1.badCrc = (steadyReads c c2).1.badCrc := by
+  obtain ⟨a1, a2⟩ := steadyReads_eq c1 c
+  obtain ⟨b1, b2⟩ := steadyReads_eq c2 c
+  have e := (opp_chunking_irrelevant_from c.ps hq c1 c2 h).1
+  rw [a1, a2, b1, b2, e]
+  exact ⟨rfl, rfl, rfl⟩
+
+/-- several chains: a read on chain `i` (initial or steady state) leaves every other chain's parser state, cards and
+counters exactly as they were -/
+theorem opp_chains_independent (s : OSt) (i j : Nat) (k : Bytes) (h : i ≠ j) :
+    (oStep s (.initRead i k)).1.chains[j]? = s.chains[j]? ∧ (oStep s (.read i k)).1.chains[j]? = s.chains[j]? := by
+  constructor
+  · exact modChain_other i j _ s h
+  · show (if s.steady then _ else _ : OSt × List OEv).1.chains[j]? = _
+    split
+    · exact modChain_other i j _ s h
+    · exact modChain_other i j _ s h
+
+/-- `_read_id` accepts exactly the well-formed 8 byte answers: address 0x20, command 0, four serial bytes, their CRC-8,
+EOM - and returns the big-endian serial number -/
+theorem opp_read_id_iff (r : Bytes) (n : Nat) :
+    readId r = some n ↔ ∃ s0 s1 s2 s3, r = [32, 0, s0, s1, s2, s3, crc8 [32, 0, s0, s1, s2, s3], 255] ∧
+      n = be32 [s0, s1, s2, s3] := by
+  constructor
+  · intro h
+    unfold readId at h
+    split at h
+    · split at h
+      · rename_i a c s0 s1 s2 s3 k e hc
+        obtain ⟨h1, h2, h3, h4⟩ := hc
+        subst h1 h3 h4
+        injection h with h
+        exact ⟨s0, s1, s2, s3, by rw [h2], h.symm⟩
+      · cases h
+    · cases h
+  · rintro ⟨s0, s1, s2, s3, rfl, rfl⟩
+    simp [readId]
+
+/-- observation (outside the property, kept visible): a matrix card whose initial read arrives with a wrong CRC is
+counted as read - the connection is registered - but its `old_state` is still the `[0, 0]` placeholder, and
+`get_hw_switch_states` then raises (`TypeError` in the implementation) -/
+theorem opp_initial_bad_crc_counted_witness :
+    let c : ChainSt := { cards := [{ addr := 32, mtx := true, mask := [], old := none }], need := 1 }
+    let c' := initRead c [32, 25, 1, 2, 3, 4, 5, 6, 7, 8, 0, 255]
+    c'.reg = true ∧ c'.badCrc = 1 ∧ oldOf true 32 c'.cards = some none ∧ hwCards c'.cards = none := by decide
+
+/-- observation (outside the property): an init reply that ends in `lost_synch()` arrives before the connection is
+registered: `KeyError` (here a reply whose first byte is no address); once registered it is just `lost_synch()` -/
+theorem opp_lost_synch_unregistered_witness :
+    initDispatchU false [] [0x41, 0xff] = none ∧ (initDispatchU true [] [0x41, 0xff]).isSome = true := by decide
+
+/-- non-vacuity: two cards on a chain, a good initial read for each, `get_hw_switch_states`, then polls with a bad-CRC
+frame in between: the states are the last good reports -/
+example :
+    let c : ChainSt := { cards := [{ addr := 32, mtx := false, mask := [], old := some (List.replicate 32 false) }], need := 1 }
+    let f1 := [32, 8, 255, 255, 255, 254, crc8 [32, 8, 255, 255, 255, 254]]
+    let f2 := [32, 8, 255, 255, 255, 253, crc8 [32, 8, 255, 255, 255, 253]]
+    let bad := [32, 8, 0, 0, 0, 0, 0]
+    lastGood false 32 none [f1, bad, f2, bad] = some (beBits [255, 255, 255, 253]) ∧
+    oldOf false 32 ([f1].foldl initFrame c).cards = some (some (beBits [255, 255, 255, 254])) ∧
+    decode bad = .badCrc := by decide
+
+/-! ## third part: FAST node discovery, PKONE connect phase -/
+
+/-- FAST node discovery: whatever an `NN:` response contains, it either leaves the board table alone or appends exactly
+one board - for a node inside the configured loop that was not registered before, all of whose predecessors are
+registered, with the running totals of their switch and driver counts as its first switch / driver number. -/
+theorem fast_nn_registers_consistently (s : NNSt) (p : Bytes) :
+    (nnProcess s p).1.boards = s.boards ∨
+    ∃ b, (nnProcess s p).1.boards = s.boards ++ [b] ∧ b.node < s.loop.length ∧ findBoard b.node s.boards = none ∧
+      priorOf b.node s.boards = some (b.startSw, b.startDr) := by
+  unfold nnProcess
+  split
+  · left; rfl
+  · split
+    · split
+      · rename_i n0 d0 w0 _ _ _
+        simp only
+        split
+        · left; rfl
+        · split
+          · left; rfl
+          · rename_i hnf
+            split
+            · left; rfl
+            · rename_i cfg hcfg
+              split
+              · left; rfl
+              · split
+                · left; rfl
+                · rename_i ps pd hpr
+                  have hlt : min n0 255 < s.loop.length := by
+                    have := List.getElem?_eq_some_iff.mp hcfg
+                    exact this.1
+                  have hnone : findBoard (min n0 255) s.boards = none := by
+                    cases hf : findBoard (min n0 255) s.boards with
+                    | none => rfl
+                    | some b => simp [hf] at hnf
+                  split <;> try split
+                  all_goals
+                    right
+                    exact ⟨_, rfl, hlt, hnone, hpr⟩
+      · left; rfl
+    · left; rfl
+
+/-- the configuration-phase decoder with node discovery: independent of the chunking -/
+theorem fast_nn_chunking_irrelevant (s : NNSt × Bytes) (c1 c2 : List Bytes) (h : c1.flatten = c2.flatten) :
+    feedChunks cfgStep3 s c1 = feedChunks cfgStep3 s c2 := by
+  rw [feedChunks_eq_feed, feedChunks_eq_feed, h]
+
+/-- non-vacuity: two boards in loop order; a response for node 5 of a two-board loop and a response for node 1 before
+node 0 are skipped -/
+example :
+    let s : NNSt := { loop := [[65], [66]] }
+    (nnProcess s ([48, 48, 44, 65, 44] ++ [49, 46, 57] ++ [44, 48, 56, 44, 50, 48, 44, 48, 44, 48, 44, 48, 44, 48, 44, 48, 44, 48])).1.boards
+      = [{ node := 0, sw := 32, dr := 8, startSw := 0, startDr := 0 }] ∧
+    (nnProcess s ([48, 53, 44, 65, 44] ++ [49, 46, 57] ++ [44, 48, 56, 44, 50, 48, 44, 48, 44, 48, 44, 48, 44, 48, 44, 48, 44, 48])).2 = .bad ∧
+    (nnProcess s ([48, 49, 44, 66, 44] ++ [49, 46, 57] ++ [44, 48, 56, 44, 50, 48, 44, 48, 44, 48, 44, 48, 44, 48, 44, 48, 44, 48])).2 = .bad := by
+  decide
+
+/-- PKONE connect phase: a `PCB` reply registers an extension board only if it is
+`PCB` digit `X` `F` firmware-digits `H` revision-digits followed by one of the nine legal tails, with at least two
+firmware digits; everything else registers nothing (no board / an exception that ends the connect) -/
+theorem pkone_pcb_ext_only_wellformed (a : Nat) (m f h : Bytes) (hx : pcbParse a m = .ext f h) :
+    ∃ d tl, m = [80, 67, 66, d, 88, 70] ++ f ++ [72] ++ h ++ tl ∧ (tailOf tl pcbTails).isSome = true ∧
+      2 ≤ f.length ∧ (∀ x ∈ f, isDig x = true) ∧ (∀ x ∈ h, isDig x = true) := by
+  unfold pcbParse at hx
+  split at hx
+  · cases hx
+  · split at hx
+    · rename_i d t r _
+      split at hx
+      · split at hx
+        · rename_i r2 hr
+          split at hx
+          · split at hx
+            · rename_i w hw
+              split at hx
+              · rename_i ht
+                unfold fwCheck at hx
+                split at hx
+                · cases hx
+                · split at hx
+                  · cases hx
+                  · injection hx with h1 h2
+                    subst ht
+                    refine ⟨d, (spanDig r2).2, ?_, by simp [hw], by rw [← h1]; omega, ?_, ?_⟩
+                    · have e1 := spanDig_append r
+                      have e2 := spanDig_append r2
+                      rw [hr] at e1
+                      rw [← h1, ← h2]
+                      simp only [List.cons_append, List.nil_append, List.append_assoc, List.cons.injEq, true_and]
+                      rw [e2, e1]
+                    · rw [← h1]; exact spanDig_digits r
+                    · rw [← h2]; exact spanDig_digits r2
+              · split at hx
+                · unfold fwCheck at hx
+                  split at hx
+                  · cases hx
+                  · split at hx
+                    · cases hx
+                    · split at hx <;> cases hx
+                · cases hx
+            · cases hx
+          · cases hx
+        · cases hx
+      · cases hx
+    · cases hx
+
+example : pcbParse 0 [80, 67, 66, 48, 88, 70, 49, 49, 72, 50, 80, 89, 69] = .ext [49, 49] [50] ∧
+    pcbParse 3 [80, 67, 66, 50, 76, 70, 49, 48, 72, 49, 82, 71, 66, 87, 69] = .light [49, 48] [49] true ∧
+    pcbParse 4 [80, 67, 66, 52, 78, 69] = .noBoard ∧ pcbParse 4 [] = .attrErr ∧
+    pcnParse [80, 67, 78, 70, 49, 49, 72, 49, 69] = .ctrl [49, 49] [49] ∧ pcnParse [80, 67, 78, 70, 57, 72, 49, 69] = .valErr := by
+  decide
+
 
 end MpfVerif.C14
